@@ -400,6 +400,11 @@ class Libs:
             'is_grad_enabled': self._is_grad_enabled, 'abs': self._nonlinear('abs'),
             'where': self._torch_where, 'sign': self._nonlinear('sign'), 'exp': self._nonlinear('exp'),
             'log': self._nonlinear('log'), 'clamp': self._nonlinear('clamp'), 'pow': self._pow,
+            'no_grad': self._ctx_manager, 'enable_grad': self._ctx_manager, 'inference_mode': self._ctx_manager,
+            'movedim': self._movedim, 'moveaxis': self._movedim, 'permute': lambda x, dims: ops.permute(x, list(dims)),
+            'empty': self._torch_zeros, 'empty_like': self._zeros_like, 'flatten': self._flatten,
+            'squeeze': lambda x, dim=None: self.interp.getattr(x, 'squeeze')(dim) if dim is not None else self.interp.getattr(x, 'squeeze')(),
+            'unsqueeze': lambda x, dim: self.interp.getattr(x, 'unsqueeze')(dim),
             'repeat_interleave': self._repeat_interleave, 'chunk': self._torch_chunk, 'split': self._torch_split, 'narrow': self._torch_narrow,
             'finfo': self._torch_finfo, 'arange': self._torch_arange, 'remainder': self._torch_remainder, 'fmod': self._torch_remainder,
             'is_tensor': lambda x: isinstance(x, (DataT, Sym)) and getattr(x, 'lib', 'torch') == 'torch',
@@ -438,6 +443,22 @@ class Libs:
         self._mods['os'] = ExtMod('os', {})
         self._mods['copy'] = ExtMod('copy', {'copy': self._unsupported('copy.copy'), 'deepcopy': self._unsupported('copy.deepcopy')})
 
+    def _config_only(self, real, label):
+        """a real numpy / math function, usable on configuration data only (shapes, index arrays, flags)"""
+        def f(*a, **k):
+            def bad(v):
+                if isinstance(v, (DataT, Sym)):
+                    return True
+                if isinstance(v, (list, tuple)):
+                    return any(bad(x) for x in v)
+                return False
+            if any(bad(v) for v in a) or any(bad(v) for v in k.values()):
+                raise AnalysisError('unknown-primitive', '%s applied to tensor / filter data' % label)
+            a = [v.arr if isinstance(v, ConstT) else v for v in a]
+            return real(*a, **k)
+        f.__module__ = 'numpy'
+        return f
+
     def _unsupported(self, name):
         def f(*a, **k):
             raise AnalysisError('unknown-primitive', name)
@@ -462,6 +483,13 @@ class Libs:
         if isinstance(obj, ExtMod):
             if name in obj.attrs:
                 return obj.attrs[name]
+            if obj.name in ('numpy', 'math') and not name.startswith('_'):
+                import math as _math
+                real = getattr(np if obj.name == 'numpy' else _math, name, None)
+                if real is not None and (callable(real) or isinstance(real, (int, float))):
+                    if not callable(real):
+                        return real
+                    return self._config_only(real, '%s.%s' % (obj.name, name))
             raise AnalysisError('unknown-primitive', '%s.%s at %s' % (obj.name, name, self.interp.loc()))
         if isinstance(obj, DataT):
             from . import tensor_api
@@ -940,6 +968,27 @@ class Libs:
         y = ops.conv_transpose2d(x4, w4, bias, (1, one(stride)), (0, one(padding)), (0, one(output_padding)), groups,
                                  (1, one(dilation)))
         return y[:, :, 0]
+
+    def _ctx_manager(self, *a, **k):
+        class _Null:
+            pass
+        return _Null()
+
+    def _movedim(self, x, src, dst):
+        n = x.ndim
+        src, dst = src % n, dst % n
+        order = [i for i in range(n) if i != src]
+        order.insert(dst, src)
+        return ops.permute(x, order)
+
+    def _flatten(self, x, start_dim=0, end_dim=-1):
+        n = x.ndim
+        a, b = start_dim % n, end_dim % n
+        shp = list(x.shape)
+        size = 1
+        for v in shp[a:b + 1]:
+            size *= v
+        return ops.reshape(x, shp[:a] + [size] + shp[b + 1:])
 
     def _repeat_interleave(self, x, repeats, dim=None):
         if dim is None or not isinstance(repeats, int):
